@@ -166,9 +166,12 @@ def check_inv_invariant(rep, mod):
         return None
     qn = [0]
 
+    qops = []
+
     def symbinop(I_, op, a, b, ty):
         if op == 'udiv':
             qn[0] += 1
+            qops.append((a, b))
             return Poly.var('Q%d' % qn[0])
         return None
     opts = {'decide': decide, 'symbolic_binop': symbinop,
@@ -233,6 +236,39 @@ def check_inv_invariant(rep, mod):
             probs.append('%d quotients computed in one iteration' % qn[0])
         (rep.refute if probs else rep.ok)('inv:step', 'loop-invariant', site,
                                           '; '.join(probs) if probs else "from any state: t' = newt, r' = newr, newt'*a - newr' = (t*a - r) - q*(newt*a - newr): the invariant t*a = r, newt*a = newr (mod p) is preserved")
+        # R-EUCLID: the shape facts that make this loop the integer Euclidean algorithm on (p, canonical(a)), from which
+        # termination and r_exit = gcd(p, a) = 1 follow by the division lemma (0 <= r - floor(r/newr)*newr < newr) and
+        # gcd(newr, r mod newr) = gcd(r, newr); p prime and 0 < canonical(a) < p
+        shape = []
+        if not (isinstance(init[roles['r']], int) and init[roles['r']] == P):
+            shape.append('r does not start at p exactly (%s)' % (init[roles['r']],))
+        nv = init[roles['newr']]
+        if not (isinstance(nv, Poly) and list(nv.vars()) == ['canon{in1[0]}'] and nv == Poly.var('canon{in1[0]}')):
+            shape.append('newr does not start at the canonical value of the operand (%s)' % (nv,))
+        if len(qops) != 1 or as_poly(qops[0][0]) != R or as_poly(qops[0][1]) != NR:
+            shape.append('the quotient is not floor(r / newr) of the loop variables (%s)' % (qops[:1],))
+        if nxt[roles['newr']] != (R - Q * NR).modp():
+            shape.append("newr' = %s is not r - q*newr" % str(nxt[roles['newr']])[:80])
+        raw_next = None
+        for ph in phis:
+            if ph.dst == roles['newr']:
+                for v, l in ph.a:
+                    if l == prev2:
+                        raw_next = I.val(env3, v, ph.ty)
+        def is_canon(v):
+            if isinstance(v, int):
+                return 0 <= v < P
+            if isinstance(v, Poly):
+                vs = list(v.vars())
+                return len(vs) == 1 and vs[0].startswith('canon{') and v == Poly.var(vs[0])
+            return isinstance(v, FV) and v.ts in ('zero', 'bits8', 'bits32', 'canon') and not v.sh
+        if not is_canon(raw_next):
+            shape.append("newr' is not taken as a canonical integer (%s): it could exceed newr by p" % (str(raw_next)[:60],))
+        if shape:
+            rep.incomplete('inv:euclid', 'R-EUCLID', site, 'the loop does not have the integer-Euclid shape, termination and r_exit = 1 are not established: ' + '; '.join(shape))
+        else:
+            rep.ok('inv:euclid', 'R-EUCLID', site, "r0 = p, newr0 = canonical(a) in (0,p), q = floor(r/newr), (r', newr') = (newr, canonical(r - q*newr)) = (newr, r mod newr): "
+                   'newr strictly decreases (ranking function), gcd(r, newr) is invariant, so the loop ends with r = gcd(p, a) = 1 and result*a = 1 (mod p)')
         # exit: the result is t
         forced[Poly.var('NR').key()] = True
         I.writes = []
@@ -247,6 +283,60 @@ def check_inv_invariant(rep, mod):
         rep.incomplete('inv:invariant', 'loop-invariant', site, str(e))
     except Sink as e:
         rep.refute('inv:invariant', 'loop-invariant', sink_site(e, site), str(e))
+
+
+INV_POINTS = [1, 2, 3, 5, 7, 255, 256, (1 << 32) - 1, 1 << 32, (1 << 32) + 1, (1 << 63), (1 << 63) + 1, P - 2, P - 1, P + 1, P + 2, P + 7,
+              (1 << 64) - 1, (1 << 64) - 2, 0x0123456789abcdef, 0xfedcba9876543210, 0x5555555555555555, 0xaaaaaaaaaaaaaaaa,
+              0x00000001fffffffe, 0xfffffffe00000002, 4294967297 * 3, 18446744069414584320 // 3]
+
+
+def check_inv_points(rep, mod, tier):
+    """constant propagation through inv for singleton operands (both canonical and non-canonical representations):
+    the loop must terminate within the Euclid bound and the result times the operand must be one"""
+    name = mod.find(SIG_INV)
+    site = site_of(mod, name)
+    pts = list(INV_POINTS)
+    if tier != 'quick':
+        import random
+        rnd = random.Random(10)
+        pts += [rnd.randrange(1, 1 << 64) for _ in range(200)]
+    bad = 0
+    for a in pts:
+        if a % P == 0:
+            continue
+        tag = 'inv:point a=0x%x' % a
+        ctx = contracts.Ctx()
+        summ, _ = contracts.wrapper_summaries(mod, ctx)
+        summ.pop(name, None)
+        I = Interp(mod, summ, {'summ_re': [(re.compile(r'^_ZStls|^_ZNSolsE|^_ZNSo'), lambda I_, a_, i: a_[0])], 'max_steps': 400000})
+        rin = Region('in1', 'param', extent=8, elem='field')
+        rout = Region('result', 'param', extent=8, elem='field')
+        I.mem[(rin, 0)] = (a, 8)
+        try:
+            I.call(name, [Ptr(rout, 0), Ptr(rin, 0)])
+            g = I.mem.get((rout, 0))
+            v = g[0] if g else None
+            v = v.nf.cval() if isinstance(v, FV) and v.nf.isconst() else v
+            if not isinstance(v, int):
+                rep.incomplete(tag, 'inv-singleton', site, 'the result is not a constant (%s)' % (v,))
+                bad += 1
+            elif (v * a) % P != 1:
+                rep.refute(tag, 'inv-singleton', site, 'inv(0x%x) = 0x%x, product with the operand is %d (mod p), not 1' % (a, v, (v * a) % P), witness={'a': a})
+                bad += 1
+        except Sink as e:
+            rep.refute(tag, 'inv-singleton', sink_site(e, site), 'inv(0x%x): %s' % (a, e), witness={'a': a})
+            bad += 1
+        except Incomplete as e:
+            if 'step budget' in str(e):
+                rep.refute(tag, 'inv-singleton', site, 'inv(0x%x) does not return within 400000 interpreted instructions (the Euclidean loop needs at most 93 iterations)' % a, witness={'a': a})
+            else:
+                rep.incomplete(tag, 'inv-singleton', site, str(e))
+            bad += 1
+        except IRError as e:
+            rep.incomplete(tag, 'inv-singleton', site, str(e))
+            bad += 1
+    if not bad:
+        rep.ok('inv:points', 'inv-singleton', site, 'inv(a)*a = 1 (mod p) and termination for %d singleton operands incl. non-canonical representations and both ends of the range' % len(pts))
 
 
 def check_div(rep, mod):
@@ -389,14 +479,17 @@ def run(rep, tier, seed):
                      'are both refused); inductive loop argument: one abstract iteration of the extended-Euclid loop from a havocked state preserves '
                      't*a = r, newt*a = newr (mod p), entry establishes it, exit returns t; div = a*inv(b) in both overloads; exp: abstract '
                      'interpretation with the exponent fixed by constant propagation for a bounded exponent set gives the AC-normalised power base^e, '
-                     'and the exponent loop has a halving ranking function (termination for every exponent)')
+                     'and the exponent loop has a ranking function (halving or counted; termination for every exponent); inv additionally: R-EUCLID shape facts '
+                     '(r0 = p, newr0 = canonical(a), q = floor(r/newr) of the loop variables, newr\' = canonical(r - q*newr)) giving termination and r_exit = 1, '
+                     'and constant propagation through inv for singleton operands (termination within the Euclid bound, inv(a)*a = 1)')
     mod = front.module('avx2', sroa=True)
     check_refusal(rep, mod)
     check_inv_invariant(rep, mod)
+    check_inv_points(rep, front.module('avx2'), tier)
     check_div(rep, front.module('avx2'))
     check_exp(rep, front.module('avx2'), tier)
-    rep.note('NOT DECIDED: that the remainder sequence of inv is the integer Euclidean one (r - q*newr taken as an integer in [0,newr)), hence termination of '
-             'that loop and r_exit = gcd(p, a) = 1; exp for exponents outside the bounded set (its loop structure and termination are decided)')
-    rep.assumptions += ['inv: result*a = r_exit (mod p) is proved; r_exit = 1 needs the integer-level Euclid argument, which is not decided here',
+    rep.note('inv: termination and r_exit = 1 rest on the R-EUCLID shape facts plus two textbook lemmas (division lemma; gcd(newr, r mod newr) = gcd(r, newr)) '
+             'and the primality of p; exp for exponents outside the bounded set is not decided (its loop structure and termination are)')
+    rep.assumptions += ['inv: the division lemma, the gcd step lemma and the primality of p = 2^64-2^32+1 are taken as mathematics, not re-proved',
                         'exp: bounded in the exponent']
     rep.trusted = ['clang 14 lowering', 'glv interpreter', 'scalar field contracts (C01), toU64 contract (C15)']
